@@ -200,6 +200,60 @@ theorem closed_implies_outcome_http1 (l t : Nat) (evs : List Ev) (ha : Admissibl
     (run l t evs).core.live = false :=
   closed_implies_outcome l t evs (grammar_holds l t evs ha) hset hrh hC hpt hW
 
+-- HTTP/2 (and HTTP/3): the same emitter with `RequestTrailers` / `ResponseTrailers` (trailers only while the body is
+-- being read; the stream sends them on after the request / response hook).  `Admissible` covers these histories, so
+-- the statements above hold for them verbatim; they are restated under the protocol's name.
+
+theorem requestheaders_first_http2 (l t : Nat) (evs : List Ev) (ha : Admissible l t evs)
+    (pre post : List Out) (h : Hook) (hsplit : (run l t evs).trace = pre ++ .hook h :: post) :
+    (h = .request ∨ h = .responseheaders ∨ h = .response ∨ h = .error → Out.hook .requestheaders ∈ pre) ∧
+    (h = .requestheaders → Out.hook .requestheaders ∉ pre) :=
+  requestheaders_first_http1 l t evs ha pre post h hsplit
+
+theorem request_at_most_once_http2 (l t : Nat) (evs : List Ev) (ha : Admissible l t evs)
+    (pre post : List Out) (hsplit : (run l t evs).trace = pre ++ .hook .request :: post) : Out.hook .request ∉ pre :=
+  request_at_most_once_http1 l t evs ha pre post hsplit
+
+theorem responseheaders_before_response_http2 (l t : Nat) (evs : List Ev) (ha : Admissible l t evs)
+    (pre post : List Out) (h : Hook) (hsplit : (run l t evs).trace = pre ++ .hook h :: post) :
+    (h = .responseheaders → Out.hook .responseheaders ∉ pre ∧ Out.hook .response ∉ pre) ∧
+    (h = .response → Out.hook .responseheaders ∈ pre ∧ Out.hook .response ∉ pre) :=
+  responseheaders_before_response_http1 l t evs ha pre post h hsplit
+
+theorem never_response_and_error_http2 (l t : Nat) (evs : List Ev) (ha : Admissible l t evs) :
+    ¬(Out.hook .response ∈ (run l t evs).trace ∧ Out.hook .error ∈ (run l t evs).trace) :=
+  never_response_and_error_http1 l t evs ha
+
+theorem unstreamed_request_before_responseheaders_http2 (l t : Nat) (evs : List Ev) (ha : Admissible l t evs)
+    (hns : Out.streamStart ∉ (run l t evs).trace)
+    (pre post : List Out) (hsplit : (run l t evs).trace = pre ++ .hook .responseheaders :: post) :
+    Out.hook .request ∈ pre :=
+  unstreamed_request_before_responseheaders_http1 l t evs ha hns pre post hsplit
+
+theorem closed_implies_outcome_http2 (l t : Nat) (evs : List Ev) (ha : Admissible l t evs)
+    (hset : (run l t evs).settled = true)
+    (hrh : Out.hook .requestheaders ∈ (run l t evs).trace)
+    (hC : (run l t evs).core.isConnect = false) (hpt : (run l t evs).core.pt = false)
+    (hW : (run l t evs).core.websocket = false) :
+    (Out.hook .response ∈ (run l t evs).trace ↔ Out.hook .error ∉ (run l t evs).trace) ∧
+    (run l t evs).core.live = false :=
+  closed_implies_outcome_http1 l t evs ha hset hrh hC hpt hW
+
+/-- an HTTP/2 exchange with trailers in both directions: admissible, ordered, and the trailers are forwarded after
+    the hooks -/
+private def exH2 : List Ev :=
+  [.reqHeaders false 0 .norm false, .reqData 3, .hookDone .requestheaders .pass, .reqTrailers, .reqEOM,
+   .hookDone .request .pass, .connDone true, .respHeaders false 0 .norm, .respData 2, .hookDone .responseheaders .pass,
+   .respTrailers, .respEOM, .hookDone .response .pass]
+
+example : admissible (init 0 0) .none exH2 = true ∧ (run 0 0 exH2).core.bad = false ∧
+    (run 0 0 exH2).trace = [.hook .requestheaders, .hook .request, .getConn, .send false .rh, .send false .rd,
+      .send false .rt, .send false .re, .hook .responseheaders, .hook .response, .send true .sh, .send true .sd,
+      .send true .st, .drop, .send true .se] := by decide
+
+/-- trailers outside the body phase are not something the emitter delivers -/
+example : admissible (init 0 0) .none [.reqHeaders true 0 .norm false, .reqEOM, .reqTrailers] = false := by decide
+
 -- non-vacuity: the hypotheses are satisfiable by real histories, and the model is not constant ------------------
 
 /-- GET, unstreamed, 4-byte response, then the exchange is complete (stream dropped) -/
